@@ -227,23 +227,70 @@ def _slice_fields(p, g, roots, seen, depth):
     return out
 
 
-def _hash_loops(p, fn, seen=None, depth=0):
-    """(function, loop) pairs of the loops that compute the hash (own, callees, writers of the stored hash field)"""
+def _value_slice(g, roots):
+    """ids of the instructions of g the values `roots' are computed from (data dependence, through phis, the conditions deciding phis and loop exits, loads and
+    their addresses, call arguments)"""
+    done = set()
+    work = list(roots)
+    while work:
+        o = work.pop()
+        if not isinstance(o, dict) or o.get("k") != "i" or o["v"] in done:
+            continue
+        done.add(o["v"])
+        i = g.insts.get(o["v"])
+        if i is None:
+            continue
+        if i.op == "phi":
+            for (v, pb) in i.d["incoming"]:
+                work.append(v)
+                t = g.bmap[pb].term
+                if t is not None and len(t.ops) == 3:
+                    work.append(t.ops[0])
+            for L in g.loops():
+                if L["header"] == i.block.name:
+                    for bn in L["body"]:
+                        t = g.bmap[bn].term
+                        if t is not None and len(t.ops) == 3 and any(s_ not in L["body"] for s_ in g.bmap[bn].succs):
+                            work.append(t.ops[0])
+        elif i.is_call():
+            work.extend(i.args)
+        elif i.op == "getelementptr":
+            work.append(i.d["base"])
+            for st in i.d["path"]:
+                for k_ in ("idx", "ptr"):
+                    if k_ in st and isinstance(st[k_], dict):
+                        work.append(st[k_])
+        else:
+            work.extend(x for x in (i.ops or []) if isinstance(x, dict))
+    return done
+
+
+def _hash_loops(p, fn, seen=None, depth=0, roots=None):
+    """(function, loop) pairs of the loops that compute the hash: loops of fn (of a writer of a stored hash field) that hold a part of the computation of the
+    returned (stored) value, and the same for the callees whose result enters it"""
     seen = seen if seen is not None else set()
-    if fn in seen or depth > 4:
+    if (fn, roots is None) in seen or depth > 4:
         return []
-    seen.add(fn)
+    seen.add((fn, roots is None))
     g = p.m.functions.get(fn)
     if g is None or g.decl:
         return []
-    out = [(g, L) for L in g.loops()]
-    for i in g.all_insts():
+    if roots is None:
+        roots = [r.ops[0] for r in g.all_insts() if r.op == "ret" and r.ops]
+    sl = _value_slice(g, roots)
+    blocks = set(g.insts[k].block.name for k in sl if k in g.insts)
+    out = [(g, L) for L in g.loops() if any(bn in L["body"] for bn in blocks)]
+    for k in sl:
+        i = g.insts.get(k)
+        if i is None:
+            continue
         if i.op == "load":
             lf = resolve_addr(g, i.ops[0]).last_field()
             if lf and "hash" in lf.split(".")[-1]:
                 for w in p.m.defined():
-                    if any(s_.op == "store" and resolve_addr(w, s_.ops[1]).last_field() == lf for s_ in w.all_insts()):
-                        out += _hash_loops(p, w.name, seen, depth + 1)
+                    sts = [s_ for s_ in w.all_insts() if s_.op == "store" and resolve_addr(w, s_.ops[1]).last_field() == lf]
+                    if sts:
+                        out += _hash_loops(p, w.name, seen, depth + 1, roots=[s_.ops[0] for s_ in sts])
         elif i.is_call() and i.callee:
             out += _hash_loops(p, i.callee, seen, depth + 1)
     return out
